@@ -173,6 +173,14 @@ func (rm *RpcMultiplexer) NewStreamReadWriter(
 			select {
 			case rpc, ok := <-respChan:
 				if !ok {
+					// The channel is closed by the connection failing or by this
+					// stream's own teardown. The latter also happens when a SendMsg
+					// of the caller fails because the caller's context has ended; the
+					// closed channel and ctx.Done() are then both ready, and which one
+					// this select picks must not decide what the caller is told.
+					if err := ctx.Err(); err != nil {
+						return nil, err
+					}
 					if err := rm.readErrorIfDone(); err != nil {
 						return nil, err
 					}
